@@ -14,13 +14,14 @@ missed=[json.load(open(f)) for f in sorted(glob.glob(f'{HERE}/seeded/*/meta.json
 nm=sum(1 for m in missed if 'initially missed' in m.get('note',''))
 nret=sum(1 for m in missed if m.get('retired'))
 nthor=sum(1 for m in missed if m.get('needs_tier')=='thorough')
+nopen=sum(1 for m in missed if not m.get('retired') and not m['caught_by'])
 text=f"""<!-- SEEDED:BEGIN -->
 {n} seeded changes are kept ({nret} of them retired since: the lines they touch were rewritten by later repairs in `/repo`; see the
 note column). Every one was written by a fresh sub-agent that saw only the text of one property (rounds 1-3: plus one-line
 descriptions of earlier changes, to avoid repeats; rounds 4-8: nothing else) and a scratch worktree of `/repo`, and every one was
 confirmed (`tools/confirm_mut.sh`): it applies, the unedited suite passes with it, it compiles with the hooks on, and its demonstration
 fails with it and passes without it. `tools/evalmut.sh` applies a patch to `/repo`, runs the named checks (quick tier) and restores the
-tree; `tools/evalalt.sh` (rounds 4-8) does the same on an isolated worktree and copy of the machinery. Every non-retired change is
+tree; `tools/evalalt.sh` (rounds 4-8) does the same on an isolated worktree and copy of the machinery. {nopen} change(s) are still MISSED (empty 'caught by' column; kept as open items, see 4j); every other non-retired change is
 caught by at least one check - {nthor} only in the thorough tier, all others in the quick tier; {nm} were **missed at first by the
 check of their own property** (the note column says what was strengthened; they are now caught). After the last change to the
 machinery all non-retired changes were re-run (`tools/seeded_regress_alt.sh`, `tools/seeded_regress_ids.sh`).
